@@ -492,7 +492,21 @@ def handle_violations(prop, by_sig, replay_cmd, make_replay_for, classify=None, 
         lines.append("  signature: %s" % sig)
         lines.append("  detail: %s" % (cand.get("detail", "")[:1500]))
         new += 1
+    lines += unsampled_known_lines(prop, [k["signature"] for k in known_seen])
     return new, known_seen, internal, lines
+
+
+def unsampled_known_lines(prop, seen_sigs):
+    """Every listed (status=known) finding of the property gets its KNOWN-FINDING line, also when this run's sample did
+    not happen to reproduce it."""
+    out = []
+    for k in load_known():
+        if k.get("property") != prop or k.get("status") != "known":
+            continue
+        if any(fnmatch.fnmatchcase(s, k.get("signature", "")) for s in seen_sigs):
+            continue
+        out.append("KNOWN-FINDING: property=%s %s [%s] (not reproduced by this run's sample)" % (prop, k.get("what", ""), k.get("signature", "")))
+    return out
 
 
 def dump_hashes(prop, allres):
